@@ -299,14 +299,13 @@ def mapping_first(ctx) -> None:
     fn = prog.func('forml.pipeline.wrap._actor:Class.Actor.__getattribute__')
     item = [p for p in fn.param_names if p != 'self'][0]
     direct = [r for r in core.walk_local(fn.node) if isinstance(r, ast.Return) and core.src(r.value) == f'getattr(self._origin, {item})']
-    ctx.floor('C13.mapping-first', len(direct), 1)
+    ctx.check(bool(direct), 'C13.mapping-first', fn, 'the fallback to the origin attribute (return getattr(self._origin, item)) is present', fn.node, key='getattribute:fallback')
     for r in direct:
         gs = cfg.cguards(r, fn.node, siblings=True)
         ctx.check((f'{item} in self.Mapping', False) in gs, 'C13.mapping-first', fn, f'the origin attribute is handed out only for names outside the mapping (guards {gs})', r, key='getattribute:mapping-first')
 
 
 def run(ctx) -> None:
-    mapping_first(ctx)
     functor_actor(ctx)
     decorated_state(ctx)
     serializers(ctx)
@@ -319,3 +318,4 @@ def run(ctx) -> None:
     # the wrappers delegate by *presence* of an origin attribute (hasattr), never by the truth of its value: a falsy state or
     # parameter of the origin must not fall back to the wrapper's own attribute
     ctx.floor('R-ATTRPRESENCE', shared.r_attr_presence(ctx, ctx.prog.functions([m for m in ctx.prog.modules if m.startswith(('forml.flow._task', 'forml.pipeline.wrap', 'forml.flow._code.target', 'forml.pipeline.payload'))])), 1)
+    mapping_first(ctx)
